@@ -9,7 +9,7 @@ wt, sid = sys.argv[1], sys.argv[2]
 env = dict(os.environ, GOFLAGS="-mod=mod", GOPROXY="off")
 env.pop("GOTOOLCHAIN", None)
 def sh(cmd, **kw):
-    p = subprocess.run(cmd, shell=True, cwd=wt, env=env, stdout=subprocess.PIPE, stderr=subprocess.STDOUT, text=True, **kw)
+    p = subprocess.run(cmd, shell=True, cwd=wt, env=env, stdout=subprocess.PIPE, stderr=subprocess.STDOUT, text=True, errors="replace", **kw)
     return p.returncode, p.stdout
 out = os.path.join(wt, "OUT")
 meta = json.load(open(os.path.join(out, "meta.json")))
